@@ -5,7 +5,7 @@ import ast
 import itertools
 
 from ..model import AnalysisError, dotted, unparse, walk_no_nested
-from ..pathtab import Atoms, canon, evaluate, iteration_outcomes
+from ..pathtab import Atoms, canon, canon_under, evaluate, iteration_outcomes
 from ..q import FuncView, arg, arg_text, callee_last, contains, decorator_names, kwargs, strip_await
 from .c01 import _wrapper_fold
 from .c04 import _leaf_table, _ret_class
@@ -138,7 +138,7 @@ def _argument_table(ck, repo):
             if isinstance(rv, str):
                 got.add(rv)
                 continue
-            txt = canon(rv, tr.env)
+            txt = canon_under(rv, tr.env, val, atoms)
             got.add(_classify(txt, d, node, an, ctx, dirs, lit_default, lit_literal, res_null, res_var))
         n += 1
         val.pop("lit_result_undefined")
@@ -285,15 +285,6 @@ def field_funnel(ck, repo):
 def _siblings(ck, repo):
     g = repo.func(LIT + "compute.py", "get_literal_coercer")
     _wrapper_fold(ck, repo, g, side="literals")
-    gv = FuncView(g)
-    texts = [unparse(a.args[0]) for a in gv.calls("append")]
-    ck.ob("get_literal_coercer: list arm pushes literals.list_coercer told whether its items are non-null",
-          "partial(list_coercer, is_non_null_item_type=wrapped_type.is_non_null_type)" in texts, g, g.node, construct="fold:list-coercer", detail=str(texts))
-    ck.ob("get_literal_coercer: non-null arm pushes literals.non_null_coercer", "non_null_coercer" in texts, g, g.node, construct="fold:non-null")
-    for name, want in (("list_coercer", "tartiflette.coercers.literals.list_coercer.list_coercer"),
-                       ("non_null_coercer", "tartiflette.coercers.literals.non_null_coercer.non_null_coercer")):
-        got = repo.resolve_name(g.module, name)
-        ck.ob(f"get_literal_coercer uses the *literal* {name}", got == want, g, g.node, construct=f"fold:resolve:{name}", detail=str(got))
     _leaf_table(ck, repo, "literal_coercer", "literals")
     # same directives callable on both sides
     for rel, cls in (("tartiflette/types/scalar.py", "GraphQLScalarType"), ("tartiflette/types/enum.py", "GraphQLEnumType"),
@@ -513,7 +504,8 @@ def _siblings(ck, repo):
 
 def _null_and_variable(ck, repo):
     w = repo.func(LIT + "null_and_variable_coercer.py", "null_and_variable_coercer_wrapper.wrapper")
-    wv = FuncView(w)
+    from ..q import inlined_view
+    wv = inlined_view(repo, w)   # a helper holding the variable branch is part of the wrapper
     pn, node, ctx, variables, nn = w.positional_params[:5]
     get = f"{variables}.get({node}.name.value, UNDEFINED_VALUE)"
     atoms = Atoms({node: "has_node", f"isinstance({node}, NullValueNode)": "is_null_node", f"isinstance({node}, VariableNode)": "is_variable",
@@ -545,7 +537,7 @@ def _null_and_variable(ck, repo):
         got = set()
         for tr in wv.cfg.simulate(lambda nd, env: evaluate(nd.ast, env, val, atoms)):
             rv = _ret_class(tr)
-            got.add(rv if isinstance(rv, str) else canon(rv, tr.env))
+            got.add(rv if isinstance(rv, str) else canon_under(rv, tr.env, val, atoms))
         n += 1
         ck.ob("null_and_variable_coercer_wrapper table " + ",".join(f"{k}={int(v)}" for k, v in val.items()), got == {want}, w, w.node,
               construct="table:" + "".join(str(int(v)) for v in val.values()), detail=f"got {sorted(got)}, want {want}" + atoms.note())
